@@ -146,6 +146,11 @@ class PathView:
         if r is None:
             sf = sign_of_fact(fact)
             if sf is not None: return self.sign_index.get(sf)
+            # x <= a established through x <= min(a, b):  [min(a, b) < x] = False  implies  [a < x] = False
+            if fact[0] == 'val' and fact[2] is False and fact[1][0] == 'lt':
+                a, x = fact[1][1], fact[1][2]
+                for i, (f, _, _) in enumerate(self.facts):
+                    if f[0] == 'val' and f[2] is False and f[1][0] == 'lt' and f[1][2] == x and f[1][1][0] == 'min' and a in f[1][1][1:]: return i
         return r
 
     @property
